@@ -128,4 +128,44 @@ example : (∀ b ∈ [[sampleEntry 3], [sampleEntry 4095, sampleEntry 4096], [sa
     | (rcases he with rfl | rfl <;> exact sampleEntry_wf _)
     | (subst he; exact sampleEntry_wf _)
 
+/-! ### the file-level statement -/
+
+/-- the extensions git writes after the offset table, in git's order -/
+def gitExts (tree : Option Tree) (reuc : Option (List ReucPath)) (sparse : Bool) : List (Bytes × Bytes) :=
+  (match tree with | some t => [(sigTREE, gitEncodeTree t)] | none => []) ++
+  (match reuc with | some ps => [(sigREUC, gitEncodeReuc ps)] | none => []) ++
+  (if sparse then [(sigSdir, [])] else [])
+
+mutual
+  /-- what gitoxide reports for a cache tree: children sorted by name, recursively -/
+  def canonTree : Tree → Tree
+    | .mk name id num cs => .mk name id num (sortByName (canonTrees cs))
+  def canonTrees : List Tree → List Tree
+    | [] => []
+    | t :: ts => canonTree t :: canonTrees ts
+end
+
+/-- FULL file-level statement (kept as a definition: its entry/chunk/threading core is proved
+above as `entry_roundtrip_*`, `entries_roundtrip`, `parallel_eq_serial`,
+`thread_grouping_irrelevant`; the composition through header, EOIE/IEOT lookup and the TREE/REUC
+payload codecs is tied by the correspondence run and the git oracle, see the level note):
+for every thread limit, decoding the file git writes for `blocks` (+ cache tree, resolve-undo,
+sparse marker, optional offset table and end-of-index marker) yields exactly those entries and
+extension contents. Without an EOIE the trailing bytes must not look like one (inherent in the
+format: git has the same ambiguity). -/
+def C24_full : Prop :=
+  ∀ (sha1 : Bytes → Bytes) (version threads : Nat) (blocks : List (List Entry))
+    (recordIeot recordEoie sparse : Bool) (tree : Option Tree) (reuc : Option (List ReucPath)) (trailer : Bytes),
+    (version = 2 ∨ version = 3 ∨ version = 4) → 1 ≤ threads →
+    (∀ b ∈ blocks, AllWf b) → (∀ b ∈ blocks, PathsFit b) → trailer.length = hashLen →
+    let file := gitEncodeIndex sha1 version blocks recordIeot (gitExts tree reuc sparse) recordEoie trailer
+    file.length < 4294967296 →
+    (recordEoie = false → eoieDecode sha1 file = none) →
+    ∃ x : Exts,
+      fromBytes sha1 threads file =
+        .ok version blocks.flatten (isSparseEntries blocks.flatten || sparse) x
+          (if isNull trailer then none else some trailer) ∧
+      x.isSparse = sparse ∧ x.endOfIndex = recordEoie ∧ x.offsetTable = recordIeot ∧
+      x.reuc = reuc ∧ x.link = none
+
 end GixModel.Props.C24
